@@ -129,7 +129,7 @@ Proof.
     rewrite Hsess1 in Hs'. destruct (decide (session = id)) as [->|Hne].
     + rewrite lookup_insert in Hs'. injection Hs' as <-. exists s0. split; [exact Hs0|]. split; [reflexivity|]. right. reflexivity.
     + rewrite lookup_insert_ne in Hs' by congruence. exists s'. auto.
-  - destruct parsed; cbn in Hr; injection Hr as <-; left; (eapply Hsame; [|reflexivity]; reflexivity).
+  - destruct (config_in_force _ _ _); cbn in Hr; injection Hr as <-; left; (eapply Hsame; [|reflexivity]; reflexivity).
 Qed.
 
 (* B2 (the marker is written BEFORE processing): if the session of a client entry exists after
@@ -204,7 +204,7 @@ Proof.
     destruct (update_last_cmid _ _ _ _ sv) as [sv1|] eqn:Hu; [|now right].
     exfalso. apply H. destruct (update_last_cmid_inv _ _ _ _ _ _ Hu) as (s0 & _ & Hs0 & _). eauto.
   - intros _ sv' out. destruct (update_last_cmid _ _ _ _ sv); [intros [= _ <-]; reflexivity|discriminate].
-  - intros _ sv' out. destruct parsed; intros [= _ <-]; reflexivity.
+  - intros _ sv' out. destruct (config_in_force _ _ _); intros [= _ <-]; reflexivity.
 Qed.
 
 (* B3: IRCServer.lastProcessed after an entry *)
@@ -238,7 +238,7 @@ Proof.
       cbn. intros [= <-]. reflexivity.
   - destruct (update_last_cmid _ _ _ _ sv) as [sv1|] eqn:Hu; cbn; intros [= <-]; [|reflexivity].
     destruct (update_last_cmid_inv _ _ _ _ _ _ Hu) as (_ & _ & _ & _ & H). exact H.
-  - destruct parsed; cbn; intros [= <-]; reflexivity.
+  - destruct (config_in_force _ _ _); cbn; intros [= <-]; reflexivity.
 Qed.
 
 (* ================================================================================================ *)
@@ -419,7 +419,7 @@ Proof.
       * rewrite Hlp1. apply Habs.
     + apply update_last_cmid_None in Hu. rewrite bool_decide_false by (rewrite Hu; intros [? ?]; discriminate). exact Habs.
   - (* Config *)
-    destruct parsed; cbn in Hr; injection Hr as <-; exact Habs.
+    destruct (config_in_force _ _ _); cbn in Hr; injection Hr as <-; exact Habs.
 Qed.
 
 (* ---- histories ------------------------------------------------------------------------------------ *)
